@@ -77,6 +77,8 @@ def find_memos(sm, cg) -> List[Memo]:
             for t in st.targets:
                 if not (isinstance(t, ast.Attribute) and isinstance(t.value, ast.Name) and t.value.id == self_name):
                     continue
+                if isinstance(st.value, (ast.Name, ast.Attribute, ast.Constant)):
+                    continue        # a copy of a key / version stamp / constant, not a memoised computation
                 # the store sits in a branch of an `if` whose condition (any atom of it) reads the same field
                 cur = pm.get(st)
                 hit = False
